@@ -193,22 +193,24 @@ func (env *CEnv) ident(name string) CVal {
 		}
 	}
 	if env.frame != nil {
-		if a := env.localAlloc(name); a != nil {
-			if env.localsAt != nil {
-				if t, ok := env.localsAt[a].(Term); ok {
-					return CVal{T: t, Type: a.Type().(*types.Pointer).Elem()}
+		// look through the frames from the function under verification inwards;
+		// in each frame a plain local wins over a captured (heap) local
+		for _, fr := range env.framesOuterFirst() {
+			one := *env
+			one.frame = &Frame{fn: fr.fn, regs: fr.regs, locals: fr.locals, loopLocals: fr.loopLocals, loopEntry: fr.loopEntry}
+			if a := one.localAlloc(name); a != nil {
+				if env.localsAt != nil {
+					if t, ok := env.localsAt[a].(Term); ok {
+						return CVal{T: t, Type: a.Type().(*types.Pointer).Elem()}
+					}
 				}
-			}
-			fr := env.st.frameOfAlloc(a)
-			if fr != nil {
 				if t, ok := fr.locals[a].(Term); ok {
 					return CVal{T: t, Type: a.Type().(*types.Pointer).Elem()}
 				}
 			}
-		}
-		// heap-allocated (escaping) local: value is in its cell
-		if hv, ok := env.heapLocal(name); ok {
-			return hv
+			if hv, ok := one.heapLocal(name); ok {
+				return hv
+			}
 		}
 	}
 	if v, ok := env.vars[name]; ok {
@@ -263,8 +265,18 @@ func (env *CEnv) derefCell(ref Term, elem types.Type) CVal {
 // localAlloc resolves a local variable name to its (non-heap) Alloc, looking
 // from the innermost (possibly inlined) frame outwards and using go/types
 // scopes at the loop position to disambiguate shadowed names.
-func (env *CEnv) localAlloc(name string) *ssa.Alloc {
+// framesOuterFirst lists the frame chain from the function under verification
+// (whose contract the expression belongs to) inwards to inlined callees.
+func (env *CEnv) framesOuterFirst() []*Frame {
+	var fs []*Frame
 	for fr := env.frame; fr != nil; fr = fr.parent {
+		fs = append([]*Frame{fr}, fs...)
+	}
+	return fs
+}
+
+func (env *CEnv) localAlloc(name string) *ssa.Alloc {
+	for _, fr := range env.framesOuterFirst() {
 		var cands []*ssa.Alloc
 		for _, a := range fr.fn.Locals {
 			if a.Comment == name && !a.Heap {
@@ -291,7 +303,7 @@ func (env *CEnv) localAlloc(name string) *ssa.Alloc {
 
 // heapLocalRef returns the cell reference of a captured local variable.
 func (env *CEnv) heapLocalRef(name string) (Term, types.Type, bool) {
-	for fr := env.frame; fr != nil; fr = fr.parent {
+	for _, fr := range env.framesOuterFirst() {
 		for _, blk := range fr.fn.Blocks {
 			for _, in := range blk.Instrs {
 				if a, ok := in.(*ssa.Alloc); ok && a.Heap && a.Comment == name {
@@ -316,7 +328,14 @@ func (env *CEnv) heapLocalRef(name string) (Term, types.Type, bool) {
 }
 
 func (env *CEnv) heapLocal(name string) (CVal, bool) {
-	for fr := env.frame; fr != nil; fr = fr.parent {
+	// a captured local variable is a local: inside old() it still has its
+	// current value, so its cell is read in the current state
+	if env.st != nil && env.cur != heapReader(env.st) && env.localsAt == nil {
+		n := *env
+		n.cur = env.st
+		return n.heapLocal(name)
+	}
+	for _, fr := range env.framesOuterFirst() {
 		for _, blk := range fr.fn.Blocks {
 			for _, in := range blk.Instrs {
 				if a, ok := in.(*ssa.Alloc); ok && a.Heap && a.Comment == name {
@@ -829,6 +848,14 @@ func (env *CEnv) call(c *ECall) CVal {
 	case "seq":
 		a := env.eval(c.Args[0])
 		return env.toSeq(a)
+	case "gstate":
+		// gstate(name, idx): cell idx of the ghost state component "name" (an integer token)
+		id, ok := c.Args[0].(*EIdent)
+		if !ok || len(c.Args) != 2 {
+			env.fail("gstate(name, index)")
+		}
+		idx := env.eval(c.Args[1])
+		return CVal{T: Select(env.cur.H("Ghost:"+id.Name, ArrSort(SInt, SInt)), idx.T), Type: tInt}
 	case "unchanged":
 		// Only meaningful as a proof goal (see split); as an assumption it is
 		// weakened to true, which is sound.
